@@ -244,14 +244,17 @@ PROPS["C14"] = Meta(
     COMMON_ASSUME + ["the trailer layout (counts in the last NbBlocks longs, offsets before) is taken as the documented self-description: it is what the raw-memory constructor reads"])
 
 
-def rebuild(dim, real="double", datat=None, periodic=0, nx=2):
-    defs = {"DIM": dim, "NX": nx, "REALT": real, "PERIODIC": periodic}
+def rebuild(dim, real="double", datat=None, periodic=0, nx=2, ord_=None, exec_=0):
+    if ord_ is None:
+        ord_ = periodic
+    defs = {"DIM": dim, "NX": nx, "REALT": real, "ORD": ord_, "EXEC": exec_}
     name = "t_rebuild_d%d_%s" % (dim, real)
     if datat:
         defs["DATAT"] = datat
         name += "_" + datat
-    if periodic:
-        name += "_per"
+    name += ["", "_per", "_hilbert"][ord_]
+    if exec_ == 1:
+        return Bin(name + "_omp", ["props/t_rebuild.cpp", "runtimes/mockgomp.cpp"], defs, cxxflags=["-fopenmp"], ldflags=["-lpthread"])
     return Bin(name, ["props/t_rebuild.cpp"], defs)
 
 
@@ -298,3 +301,44 @@ PROPS["C18"] = Meta(
     "1..16 workers; per-worker counters merged with Reduce in a generated order; oracle = results bit-identical to the unwrapped kernel, merged counters = model counts x executions "
     "(P2M=L2P=leaves, M2M=L2L=parent-child links at working levels, M2L=existing transfer pairs, P2P=sum n_a*n_b over adjacent unordered leaf pairs, P2PInner=sum n(n-1)); "
     "non-trivial = counts spread over >= 2 kernel copies (OpenMP) / >= 1 M2L and >= 1 P2P (sequential)", SCHED_ASSUME)
+
+
+# ---- C19: the documented template cross product, one translation unit (binary) per compile-time configuration ----------
+def _c19_jobs():
+    import os
+    here = os.path.dirname(os.path.abspath(__file__))
+    full = []
+    for dim in (1, 2, 3, 4):
+        for real in ("double", "float"):
+            for ord_ in (0, 1, 2):
+                if ord_ == 2 and dim != 3:
+                    continue          # the Hilbert ordering is documented (and statically asserted) for dimension 3 only
+                for ex in (0, 1):
+                    full.append(("cfg-d%d-%s-%s-%s" % (dim, real, ["morton", "pmorton", "hilbert"][ord_], ["seq", "omp"][ex]), rebuild(dim, real, ord_=ord_, exec_=ex)))
+        full.append(("cfg-d%d-tsm-seq" % dim, tsm(0, dim)))
+        full.append(("cfg-d%d-norhs" % dim, Bin("t_norhs_d%d_double" % dim, ["props/t_norhs.cpp"], {"DIM": dim, "REALT": "double"})))
+    full.append(("cfg-d3-norhs-float", Bin("t_norhs_d3_float", ["props/t_norhs.cpp"], {"DIM": 3, "REALT": "float"})))
+    full.append(("cfg-d3-float-double", rebuild(3, "float", "double")))
+    full.append(("cfg-d1-double-float", rebuild(1, "double", "float")))
+    for dim in (3, 2):
+        full.append(("cfg-d%d-all-runtimes" % dim, Bin("t_selecter_d%d" % dim, ["props/t_selecter.cpp", "runtimes/mockgomp.cpp"], {"DIM": dim}, cxxflags=["-fopenmp"], ldflags=["-lpthread"],
+                                                    includes=[os.path.join(here, "runtimes/specx"), os.path.join(here, "runtimes/starpu")])))
+    # quick = a fixed subset covering every value of every dimension and every pair (dimension, ordering), (dimension, executor), (type, ordering)
+    quick = {"cfg-d1-double-morton-seq", "cfg-d1-float-pmorton-omp", "cfg-d2-float-morton-omp", "cfg-d2-double-pmorton-seq", "cfg-d3-double-morton-omp", "cfg-d3-float-pmorton-seq",
+             "cfg-d3-double-hilbert-seq", "cfg-d3-float-hilbert-omp", "cfg-d4-float-morton-seq", "cfg-d4-double-pmorton-omp", "cfg-d2-tsm-seq", "cfg-d4-tsm-seq", "cfg-d1-norhs", "cfg-d3-norhs-float",
+             "cfg-d3-float-double", "cfg-d1-double-float", "cfg-d3-all-runtimes", "cfg-d2-all-runtimes"}
+    jobs = []
+    for name, b in full:
+        jobs.append(Job(name, b, quick=(1, 120, 100), thorough=(2, 1000, 100), thorough_only=(name not in quick), build_failure_is_violation=True))
+    jobs.append(Job("cfg-d3-double-hilbert-geometry", rebuild(3, "double", ord_=2), quick=(0, 0, 0), thorough=(0, 0, 0), args=["--hilbert-geometry", "1"], probe_only=True))
+    return jobs
+
+
+PROPS["C19"] = Meta(_c19_jobs(),
+    "generated programs: one binary (translation unit + harness) per compile-time configuration of the documented cross product dimension {1,2,3,4} x coordinate type {float,double} x ordering "
+    "{Morton, periodic Morton, Hilbert(3-D)} x executor {sequential, OpenMP} (+ sequential on a target/source tree, data type != coordinate type, zero result values, and the build with OpenMP, "
+    "Specx and StarPU all enabled through the algorithm selector header); block size {automatic, environment, explicit} and {with, without rebuild} are generated per case inside each binary; "
+    "oracle = the binary compiles and links (a build failure is the violation, replay = compiler log) and its embedded structure (C07), construction (C06), exactly-once (C01/C09) and "
+    "rebuild (C13) oracles hold on generated cases; quick = 18 configurations covering every value and the main pairs, thorough = all 49; "
+    "non-trivial = a case whose move changes the number of occupied leaves (cfg binaries) / >= 2 leaves (others); Hilbert: geometry-free values and leaf-level coordinates only (F-HILBERT)",
+    SCHED_ASSUME)
